@@ -313,3 +313,74 @@ def r5(cx):
         cx.check(not d, "%s: seek() writes every field seek_first() writes" % ty, "seek-vs-seek_first|%s" % ty, impl["seek"].where(),
                  "%s::seek leaves %s untouched although seek_first resets it" % (ty, sorted(d)))
     cx.floor("carried-state reset obligations", n, 12)
+
+
+def rule_ws_seek_absolute(cx):
+    """`seek`, `seek_first`, `seek_last` of the write-set overlay cursors are absolute: the new write-set position is computed
+    from the target and the (sorted) pending entries only.  A helper that reads the previous position (`ws_pos`) while
+    computing the new one makes `seek(earlier_key)` after a forward run miss pending writes (read-your-writes broken)."""
+    f = cx.f
+    n = 0
+    for ty in ("TransactionRangeIterator", "TransactionHistoryIterator"):
+        for m in ("seek_ws", "seek_ws_first", "seek_ws_last"):
+            b = f.body("%s::%s" % (ty, m))
+            R, W = self_field_sites(f, b, callee_writes="may")
+            moved = sorted(x for x in W if x.startswith("ws_"))
+            cx.check(bool(moved), "%s::%s sets the write-set position" % (ty, m), "ws-seek-no-write|%s::%s" % (ty, m), b.where())
+            for fld in moved:
+                n += 1
+                cx.check(fld not in R, "%s::%s computes `%s` without reading its previous value" % (ty, m, fld), "ws-seek-relative|%s::%s|%s" % (ty, m, fld), b.where(),
+                         "%s::%s reads the previous write-set position `%s` while repositioning: an absolute seek to an earlier key after a forward run keeps the cursor "
+                         "behind the target, so pending writes (overwrites, deletes, new keys) before it are not overlaid" % (ty, m, fld))
+    cx.floor("write-set absolute-seek obligations", n, 6)
+    # siblings: the two overlay cursors position their write-set side with the same search
+    for m in ("seek_ws", "seek_ws_first", "seek_ws_last"):
+        a, b_ = f.body("TransactionRangeIterator::%s" % m), f.body("TransactionHistoryIterator::%s" % m)
+        ca = sorted(c.primary for c in a.calls if c.bb in a.live and not c.expansion)
+        cb = sorted(c.primary for c in b_.calls if c.bb in b_.live and not c.expansion)
+        cx.check(ca == cb, "range and history overlay cursors implement %s with the same calls" % m, "ws-seek-siblings|%s" % m, a.where(),
+                 "TransactionRangeIterator::%s and TransactionHistoryIterator::%s differ (%s vs %s)" % (m, m, ca, cb))
+
+
+@rule("C09", "C09.R6", "write-set side of the overlay cursors: absolute seeks ignore the previous position")
+def r6(cx):
+    rule_ws_seek_absolute(cx)
+
+
+@rule("C09", "C09.R7", "memtable cursor: every positioning method applies the bound of its direction")
+def r7(cx):
+    """SkiplistIterator keeps `lower` / `upper`; nothing above it re-checks bounds.  Every method that moves `nd` forward
+    (from get_next / a >= search) must consult `upper` afterwards, every method that moves it backward (get_prev) must
+    consult `lower` -- siblings of one interface must agree (first/advance/seek_ge; last/prev_internal)."""
+    f = cx.f
+    fw = bw = 0
+    for b in f.scan_bodies():
+        if b.kind != "method" or b.impl_trait or (b.self_ty or "").split("<")[0].split("::")[-1] != "SkiplistIterator":
+            continue
+        S = self_aliases(b)
+        writes = []
+        for i, j, lhs, rv, line in b.assigns():
+            if i in b.live and lhs[0] in S and any(isinstance(p, list) and p[0] == "f" and p[2] == "nd" for p in lhs[1:]) and rv[0] == "use":
+                o = origin_of_operand(b, rv[1])
+                names_ = {c.primary.split("::")[-1] for c in o.calls}
+                if {"tail", "head"} & {x[1] for x in o.fields}:
+                    continue  # parking the cursor on a sentinel is the clamp itself, not a move
+                d = "fwd" if names_ & {"get_next", "seek_for_base_splice", "find_splice"} else ("bwd" if names_ & {"get_prev"} else None)
+                if d:
+                    writes.append((i, d, line))
+        if not writes:
+            continue
+        R, W = self_field_sites(f, b, callee_writes="may")
+        for i, d, line in writes:
+            fld = "upper" if d == "fwd" else "lower"
+            if d == "fwd":
+                fw += 1
+            else:
+                bw += 1
+            after = b.reachable_after([i]) | {i}
+            ok = any(x in after for x in R.get(fld, ()))
+            cx.check(ok, "`%s` consults `%s` after moving %s" % (b.id, fld, "forward" if d == "fwd" else "backward"), "skiplist-bound-unchecked|%s|%s" % (b.name, fld), "%s:%d" % (b.file, line),
+                     "`%s` positions the memtable cursor (%s) and returns without consulting `%s`: a key at or past the bound is reported as valid, and no "
+                     "layer above re-checks bounds, so a range cursor returns a key outside [start, end)" % (b.id, "forward" if d == "fwd" else "backward", fld))
+    cx.floor("forward positioning sites of SkiplistIterator", fw, 3)
+    cx.floor("backward positioning sites of SkiplistIterator", bw, 2)
